@@ -87,6 +87,19 @@ def rowSound (r : McRow) : Bool := !(r.asg || r.ctor) || ReprPreserving (r.fromN
 /-- EVERY pair the header deems memcpy-able is representation-preserving (kernel evaluation over the whole table) -/
 theorem memcpy_table_sound : mcTable.all rowSound = true := by decide +kernel
 
+/-- class types (and scalars) T → T, per value category of the source: whenever the header selects the bulk copy, RUNNING the
+    constructor / assignment operator that overload resolution selects for that category leaves exactly the source's bytes
+    (ground truth obtained by execution in the table program) — in particular a trivially copyable type whose construction
+    or assignment from a NON-CONST LVALUE selects a template is not bulk-copied from such a source -/
+def classRowSound (r : McClassRow) : Bool :=
+  (!r.ctorR || r.truthCtorR) && (!r.ctorL || r.truthCtorL) && (!r.ctorC || r.truthCtorC) &&
+  (!r.asgR || r.truthAsgR) && (!r.asgL || r.truthAsgL) && (!r.asgC || r.truthAsgC)
+
+theorem memcpy_class_table_sound : mcClassTable.all classRowSound = true := by decide +kernel
+
+/-- non-vacuity: the table contains a type for which the categories differ, and the header tells them apart -/
+example : mcClassTable.any (fun r => r.ctorR && !r.ctorL && r.truthCtorR && !r.truthCtorL) = true := by decide +kernel
+
 open SvModel.Conv in
 /-- … hence, for such a pair of distinct integral / enumeration types, copying the bytes of ANY valid source object
     yields exactly `static_cast<To>(source)` — for every representation, not only the sampled ones -/
